@@ -176,7 +176,7 @@ def run_case(gen, idx, rng, tier):
             # 1. exactly one CANCEL for that stream from the canceller
             ncancel = sum(1 for e in world.events if e['kind'] == 'queue' and e['ep'] == ep
                           and e['f'].get('type') == 'CANCEL' and e['f'].get('sid') == sid)
-            if ncancel != 1 and not (ncancel == 0 and _terminal_received_before_cancel_queued(world, ep, sid)):
+            if ncancel != 1 and not (ncancel == 0 and _terminal_received_before_cancel_queued(world, ep, sid, model == 'rr')):
                 bad('cancel-frames-not-exactly-one', iid, canceller=ep, stream=sid, cancel_frames=ncancel,
                     direction=direction)
             # 2. nothing further delivered to the canceller
@@ -264,7 +264,7 @@ def run_case(gen, idx, rng, tier):
             'counts': {'wire_frames': sum(1 for e in world.events if e['kind'] == 'wire')}, 'sample': desc}
 
 
-def _terminal_received_before_cancel_queued(world, ep, sid):
+def _terminal_received_before_cancel_queued(world, ep, sid, rr=True):
     """A future's cancel() takes effect in its done callback, one loop turn later; if the terminating frame of
     the stream is processed in between, the stream is over and (by C08) no CANCEL may be sent any more."""
     for e in world.events:
@@ -273,7 +273,7 @@ def _terminal_received_before_cancel_queued(world, ep, sid):
         if e['kind'] == 'wire' and e['dir'] == 'recv' and e['ep'] == ep and e['f'].get('sid') == sid:
             f = e['f']
             if f['type'] == 'ERROR' or (f['type'] == 'PAYLOAD' and not f.get('follows')
-                                         and (f.get('complete') or True)):
+                                         and (f.get('complete') or rr)):
                 return True
     return False
 
@@ -324,7 +324,7 @@ def run_script(idx, rng, tier):
                 st['pending_cancels_judged'] += 1
                 n = sum(1 for ev in world.events if ev['kind'] == 'queue' and ev['f'].get('type') == 'CANCEL'
                         and ev['f'].get('sid') == res.sid)
-                if n != 1 and not (n == 0 and _terminal_received_before_cancel_queued(world, e, res.sid)):
+                if n != 1 and not (n == 0 and _terminal_received_before_cancel_queued(world, e, res.sid, m == 'rr')):
                     bad('cancel-frames-not-exactly-one', cancel_frames=n)
                 if m != 'rr' and res.sub.after_cancel:
                     bad('delivered-after-cancel', callbacks_after_cancel=res.sub.after_cancel[:5])
